@@ -13,7 +13,7 @@ import (
 // VerifH_C15_Scope
 func VerifH_C15_Scope() {
 	placement := vrt.Choice("placement", 4)
-	exprKind := vrt.Choice("expr", 3)   // 0 valid with prefix p, 1 syntactically invalid, 2 unknown prefix q
+	exprKind := vrt.Choice("expr", 4)   // 0 valid with prefix p, 1 syntactically invalid, 2 unknown prefix q, 3 the own prefix of the module the statement is written in
 	uImport := vrt.Choice("u.import", 3) // what module U imports under prefix p: 0 Y, 1 X, 2 nothing
 	var expr string
 	switch exprKind {
@@ -40,6 +40,13 @@ func VerifH_C15_Scope() {
 	}
 	dBody, uBody := "", ""
 	textualModule := "d"
+	if placement == 1 || placement == 2 {
+		textualModule = "u"
+	}
+	if exprKind == 3 {
+		expr = "../" + textualModule + ":xa = 'v'"
+		pathExpr = "/" + textualModule + ":xa"
+	}
 	switch placement {
 	case 0: // must inside a grouping of D, used from U
 		dBody = "grouping g { leaf gl { type string; must \"" + expr + "\"; } }"
@@ -74,6 +81,9 @@ func VerifH_C15_Scope() {
 		}
 	}
 	ok := exprKind == 0 && pKnown
+	if exprKind == 3 {
+		ok, pNs = true, "urn:"+textualModule
+	}
 	vrt.Reach("c15.scope.placement" + strconv.Itoa(placement))
 	ms, err := compileTexts(texts, featSet{}, nil)
 	if err != nil {
@@ -124,8 +134,13 @@ func VerifH_C15_Scope() {
 	vrt.Assert(src == expr, "c15.scope.expression-text-kept")
 	vrt.Assert(strings.Contains(listing, pNs), "c15.scope.prefix-resolved-in-textual-module")
 	other := "urn:y"
-	if pNs == "urn:y" {
+	switch pNs {
+	case "urn:y":
 		other = "urn:x"
+	case "urn:d":
+		other = "urn:u"
+	case "urn:u":
+		other = "urn:d"
 	}
 	vrt.Assert(!strings.Contains(listing, other), "c15.scope.prefix-not-resolved-in-using-module")
 }
